@@ -26,7 +26,7 @@ def run_case(cs, ctx):
     quick = ctx.tier == 'quick'
     crit = CR[cs % 9]
     prof = {'name': 'c03', 'spec': {}, 'opts': {'ncrit': 1, 'crit_pool': [crit]},
-            'medium_rate': 0.12}
+            'medium_rate': 0.12, 'shipped_rate': 0.02}
     if crit in ('lmb', 'lsb', 'mincostlsb'):
         prof['spec'] = {'na': 3 if (cs // 9) % 3 else 2,
                         'shapes': ['dense', 'big_targets', 'one_lecturer', 'lec_gt_students', 'tight_lecturer', 'lowerq']}
